@@ -244,7 +244,11 @@ def clear_inactive_cache(
             continue
         for file in os.scandir(version_path):
             try:
-                if file.stat().st_atime + _CACHED_FILE_MAXIMUM_SURVIVAL <= time.time():
+                file_stat = file.stat()
+                # Writing does not update the access time. A file that was
+                # saved again recently is in use as well.
+                last_used = max(file_stat.st_atime, file_stat.st_mtime)
+                if last_used + _CACHED_FILE_MAXIMUM_SURVIVAL <= time.time():
                     os.remove(file.path)
             except OSError:  # silently ignore all failures
                 continue
